@@ -70,6 +70,22 @@ func rGenPattern(rng *rand.Rand) string {
 	return p
 }
 
+// rRenameParams gives every parameter of the pattern another name (same structure, same tree nodes).
+func rRenameParams(p string) string {
+	var sb strings.Builder
+	for i := 0; i < len(p); i++ {
+		sb.WriteByte(p[i])
+		if p[i] == ':' && (i == 0 || p[i-1] != '\\') {
+			for i+1 < len(p) && p[i+1] != '/' {
+				i++
+				sb.WriteByte(p[i])
+			}
+			sb.WriteString("2")
+		}
+	}
+	return sb.String()
+}
+
 // structural key: method + pattern with parameter names erased
 func rKey(r rRoute) string {
 	var sb strings.Builder
@@ -209,6 +225,10 @@ func rGenTable(rng *rand.Rand, max int) []rRoute {
 		r := rRoute{rMethods[rng.Intn(len(rMethods))], rGenPattern(rng)}
 		if len(rs) > 0 && rng.Intn(3) == 0 { // same path, another method
 			r.pattern = rs[rng.Intn(len(rs))].pattern
+			if rng.Intn(2) == 0 {
+				// ... with parameter NAMES of its own: pattern and names are per method, the tree node is shared
+				r.pattern = rRenameParams(r.pattern)
+			}
 		}
 		if seen[rKey(r)] {
 			continue
